@@ -15,7 +15,7 @@ use refimpl as r;
 use refimpl::{Mode, Poly, Q};
 use serde_json::{json, Value};
 
-const RULE: &str = "the crate's own pipelines are replayed through verif_hooks exactly as ml_dsa.rs composes them and compared with the schoolbook negacyclic product in i128: (a) c*x = inv_ntt(mont_reduce(ntt(c) . to_mont(ntt(x)))) for tau-sparse +-1 challenges (all three tau) and x in [-eta,eta], [-4095,4096], t1*2^13; (b) A*v = inv_ntt(mat_vec_mul(A_hat, ntt(v))) for v in [-gamma1+1,gamma1] and [-eta,eta] at each (k,l); (c) verify's A*z - c*t1*2^d. Inputs: all 256 basis polynomials x scalars {1,-1,max,-max}, all-max, all-min, alternating, seeded random sign patterns of extremal magnitude, random in-range vectors, inverse-NTT inputs that are constant / two-valued over all 256 slots for every value where a reduction changes behaviour in the call-site range |x| < 8q (multiples of 2^23 and of q, +-2, powers of two, a seeded stride), mat_vec_mul with arbitrary (not ExpandA-derived) all-equal matrix and vector slots, response polynomials found by a black-box layer-by-layer maximisation of the forward NTT's slot-0 magnitude through the real hook (must stay inside to_mont's input range), and sparse-coset adversarial rows (fixtures for ML-DSA-65/87, fresh search in thorough) which are also turned into FIPS-valid signatures and put through verify() against the reference. Violation = overflow-check panic, result not congruent to the schoolbook product, or inverse-NTT output outside [0,q). Evidence reports the largest |sum of inverse-NTT inputs| reached as a fraction of 2^31. Non-trivial = distinct input vectors per pipeline shape.";
+const RULE: &str = "the crate's own pipelines are replayed through verif_hooks exactly as ml_dsa.rs composes them and compared with the schoolbook negacyclic product in i128: (a) c*x = inv_ntt(mont_reduce(ntt(c) . to_mont(ntt(x)))) for tau-sparse +-1 challenges (all three tau) and x in [-eta,eta], [-4095,4096], t1*2^13; (b) A*v = inv_ntt(mat_vec_mul(A_hat, ntt(v))) for v in [-gamma1+1,gamma1] and [-eta,eta] at each (k,l); (c) verify's A*z - c*t1*2^d. Inputs: all 256 basis polynomials x scalars {1,-1,max,-max}, all-max, all-min, alternating, seeded random sign patterns of extremal magnitude, random in-range vectors, inverse-NTT inputs that are constant / two-valued / constant with one slot offset by 1..255 (so that the input sum takes every residue modulo 256 at every magnitude) over all 256 slots for every value where a reduction changes behaviour in the call-site range |x| < 8q (multiples of 2^23 and of q, +-2, powers of two, a seeded stride), mat_vec_mul with arbitrary (not ExpandA-derived) all-equal matrix and vector slots, response polynomials found by a black-box layer-by-layer maximisation of the forward NTT's slot-0 magnitude through the real hook (must stay inside to_mont's input range), and sparse-coset adversarial rows (fixtures for ML-DSA-65/87, fresh search in thorough) which are also turned into FIPS-valid signatures and put through verify() against the reference. Violation = overflow-check panic, result not congruent to the schoolbook product, or inverse-NTT output outside [0,q). Evidence reports the largest |sum of inverse-NTT inputs| reached as a fraction of 2^31. Non-trivial = distinct input vectors per pipeline shape.";
 
 pub fn run(ctx: &Ctx) -> StageOut {
     let mut acc = Acc::new();
@@ -262,6 +262,34 @@ fn run_set<S: PS>(ctx: &Ctx) -> Acc {
             for (idx, &c) in cs.iter().enumerate() {
                 if idx % chunks != ch {
                     continue;
+                }
+                // constant plus an offset in one slot: the sum of the inputs (coefficient 0 before the final
+                // scaling) then runs through every residue modulo 256 at every magnitude, which is what a
+                // scaling step that looks at the low byte of its operand depends on
+                let offs: Vec<i32> = if idx % 7 == 0 || c % (1 << 20) == 0 || c % Q == 0 { (1..=255).collect() } else { vec![1, 127, 128, 129, 255] };
+                for &d in &offs {
+                    for slot in [0usize, 255] {
+                        if slot == 255 && offs.len() < 200 {
+                            continue;
+                        }
+                        a.eval();
+                        let mut inp: P = [c as i32; 256];
+                        inp[slot] = (c as i32).wrapping_add(d);
+                        if i64::from(inp[slot]).abs() >= lim {
+                            inp[slot] = (c as i32).wrapping_sub(d);
+                        }
+                        let want = r::ntt_inv(&to_i64(&inp));
+                        let replay = || json!({"kind":"c18-invntt-const","c":c,"pattern":"constant-plus-offset","offset":d,"slot":slot});
+                        match guarded(|| hk::inv_ntt::<1>(&[inp])[0]) {
+                            Err(pi) => panic_violation(&mut a, "C18", "inv_ntt", "inv_ntt-constant-plus-offset", &pi, replay()),
+                            Ok(got) => {
+                                if check_range_and_congruence(&mut a, "inv_ntt-constant-plus-offset", "all", &got, &want, &replay) {
+                                    a.count("ok_inv_ntt-constant-plus-offset", 1);
+                                    a.nontrivial(digest64(&[b"cpo", &c.to_le_bytes(), &d.to_le_bytes(), &[slot as u8]]));
+                                }
+                            }
+                        }
+                    }
                 }
                 for pat in 0..3usize {
                     a.eval();
